@@ -365,6 +365,22 @@ func init() {
 				add(&CLICase{What: "comment-encoding", Src: src, RefSrc: []byte("\tMOV AL,1\n\tMOV BL,2\n\tMOV CL,3\n\tHLT\n"), Cell_: fmt.Sprintf("comments shift_jis trail-at-eol %x", ch[len(ch)-1])})
 			}
 		}
+		// sources that GROW a lot when decoded: half-width katakana (one Shift_JIS byte, three UTF-8 bytes) and lone lead bytes
+		// (one byte, U+FFFD = three bytes) outnumbering everything else, so that the decoded text is almost three times the file
+		for _, n := range []int{8, 20, 64, 300, 5000} {
+			for k, fill := range [][]byte{{0xb1}, {0xca, 0xdd, 0xb6, 0xb8}, {0x81}, {0xb1, 0x81, 0xdf, 0xe0}} {
+				src := []byte(";")
+				for len(src) < n+1 {
+					src = append(src, fill...)
+				}
+				src = append(src, []byte("\n\tMOV AL,1\n\tMOV BL,2\n;")...)
+				for i := 0; i < n/4; i++ {
+					src = append(src, fill...)
+				}
+				src = append(src, []byte("\n\tMOV CL,3\n\tHLT\n")...)
+				add(&CLICase{What: "comment-encoding", Src: src, RefSrc: []byte("\tMOV AL,1\n\tMOV BL,2\n\tMOV CL,3\n\tHLT\n"), Cell_: fmt.Sprintf("comments shift_jis expanding n=%d fill=%d", n, k)})
+			}
+		}
 		// sources longer than the window an encoding sniffer looks at (1 KiB, 4 KiB), whose beginning and end are in different
 		// "apparent" encodings: Shift_JIS text that happens to be valid UTF-8 up front (half-width katakana pairs) and kanji further down,
 		// a UTF-8 header followed by Shift_JIS comments, and the reverse
